@@ -109,13 +109,44 @@ def check_case(c, ctx, h=None):
                 raise Violation(c, 'final stack differs', observed=[len(f['st']), len(f['alt']), f['st'][-3:]], expected=[len(s.stack), len(s.alt), [x.hex() for x in s.stack[-3:]]])
 
 
+def w_retry(ctx, wid, seed):
+    """a limit is reached exactly, but on the way one operation FAILED once and was retried after the stack had been repaired with `exec`: the failed
+    attempt must not have been counted (operation count incl. multisig keys, stack items), so the script still succeeds at L and fails at L + 1"""
+    for name, prefix, repair, counted in (
+            ('verify', b'\x00\x69', 'OP_1', 1),                   # OP_0 OP_VERIFY fails; exec OP_1 (a push: not counted) puts a true value on top
+            ('equalverify', b'\x51\x52\x88', 'OP_2', 1),           # 1 2 EQUALVERIFY fails; exec OP_2 makes the top two items equal
+            ('numequalverify', b'\x51\x52\x9d', 'OP_2', 1)):
+        for sv in (R.BASE, R.WITNESS_V0):
+            for at in (0, 1):
+                nops = 201 + at - counted
+                script = prefix + b'\x61' * nops + b'\x51'
+                nsteps = len(R.decode(prefix))
+                cmds = ['s'] * nsteps + ['e:' + '+'.join(t.encode().hex() for t in repair.split(' '))] + ['s']
+                case = dict(way='retry-' + name, sv=sv, at=at, script=script.hex())
+                ctx.case(repr(case), True, case, 'retry-after-failed-step')
+                flags = 0 if name != 'multisig' else 0
+                g = harness().req(kvline('session', script=script, stack=[], flags=flags, sv=sv, cmds=','.join(cmds), finish=1))
+                if 'log' not in g:
+                    ctx.violations.append(dict(campaign='retry', why='session could not be run: %r' % g, case=case, refails=3))
+                    return
+                failed_once = not g['log'][nsteps - 1]['acc']
+                if not failed_once:
+                    ctx.count('retry:prefix-did-not-fail')
+                    continue
+                ok = bool(g.get('ok'))
+                if at == 0 and not ok or at == 1 and (ok or g.get('err') != R.ERR['OP_COUNT']):
+                    ctx.violations.append(dict(campaign='retry', why='a script of exactly %d counted operations in which one operation (%s) failed once and was retried after `exec` repaired the stack ends with %r' % (
+                        201 + at, name, g.get('err') or 'ok'), case=case, observed=[ok, g.get('err')], expected='ok' if at == 0 else R.ERR['OP_COUNT'], refails=3))
+                    return
+
+
 def w_limits(ctx, wid, seed, examples):
     core.hyp_campaign(ctx, 'limits', L.all_limits, check_case, examples, seed, case_json, max_shrinks=50)
 
 
 def run(tier, t0):
     n = 1200 if tier == 'quick' else 8000
-    m = core.parallel(PID, [(w_limits, dict(examples=n)) for _ in range(core.WORKERS)])
+    m = core.parallel(PID, [(w_limits, dict(examples=n)) for _ in range(core.WORKERS)] + [(w_retry, dict())])
     # table limit x way x version x at: report empty cells
     cells = collections.Counter()
     for k, v in m.counters.items():
